@@ -57,6 +57,21 @@ func scenarioFromGen(g *Gen, prog *GProgram, layout int, r *Rand) Scenario {
 	for k, v := range g.rawVars {
 		vars[k] = v
 	}
+	// a caller may pass more than the script asks for: an entry for a variable that has an origin (the
+	// origin wins), an entry for a name the script does not declare
+	for _, d := range prog.Vars {
+		if d.Origin != nil && (len(d.Name)+len(text))%2 == 0 {
+			if _, given := vars[d.Name]; !given {
+				vars[d.Name] = map[string]string{"monetary": "USD 4242", "number": "4242", "account": "intruder", "string": "intruder", "asset": "XXX", "portion": "1/7"}[d.Type]
+				if vars[d.Name] == "" {
+					delete(vars, d.Name)
+				}
+			}
+		}
+	}
+	if len(text)%5 == 0 {
+		vars["not_declared_anywhere"] = "USD 1"
+	}
 	return Scenario{Text: text, Vars: vars, Bal: bal, Meta: meta, Kind: skExact, FailAt: -1, Flag: g.flag, Expected: expected}
 }
 
@@ -311,9 +326,7 @@ func interpCases(c *Ctx, n int, tweak func(cfg *GenCfg, i int), post func(s *Sce
 		case "hugeSum":
 			prog = g.hugeSumProgram()
 			c.count("directed:hugeSum")
-		case "twoAssets":
-			prog = g.twoAssetsProgram()
-			c.count("directed:twoAssets")
+
 		case "overdraftTwice":
 			prog = g.overdraftTwiceProgram()
 			c.count("directed:overdraftTwice")
@@ -353,6 +366,15 @@ func interpCases(c *Ctx, n int, tweak func(cfg *GenCfg, i int), post func(s *Sce
 		case "edgeLiteral":
 			prog = g.edgeLiteralProgram()
 			c.count("directed:edgeLiteral")
+		case "metaCapRewrite":
+			prog = g.metaCapRewriteProgram()
+			c.count("directed:metaCapRewrite")
+		case "zeroTwins":
+			prog = g.zeroTwinsProgram()
+			c.count("directed:zeroTwins")
+		case "twoAssets":
+			prog = g.twoAssetsProgram()
+			c.count("directed:twoAssets")
 		case "capVarReuse":
 			prog = g.capVarReuseProgram(cfg.OneSend)
 			c.count("directed:capVarReuse")
@@ -483,6 +505,14 @@ func init() {
 				cfg.SelfLead = false
 				cfg.Directed = "worldLookalike"
 			}
+			switch i % 64 {
+			case 18:
+				cfg.SelfLead, cfg.Directed = false, "originOtherAsset"
+			case 34:
+				cfg.SelfLead, cfg.Directed = false, "twoAssets"
+			case 50:
+				cfg.SelfLead, cfg.Directed = false, "zeroTwins"
+			}
 		}, nil)
 	}
 	registry["C02"] = func(c *Ctx) {
@@ -605,6 +635,9 @@ func init() {
 			}
 			if i%20 == 13 {
 				cfg.Directed = "nestedKept"
+			}
+			if i%20 == 3 {
+				cfg.Directed = "metaCapRewrite"
 			}
 			cfg.FreePrefix = i%5 == 2
 		}, nil)
